@@ -19,7 +19,7 @@ SPEC = {
 
 XS = ['0', '1', '2', '7', '10', '50', '99', '100', '200', '250', '1000', '1234', '86400', '1000000', '0.5', '0.25', '1.5', '19.99', '3.14159', '0.001',
       '1234.5678', '999.995', '33.333333', '0.999']
-PS = ['0', '1', '2', '5', '8', '10', '12.5', '15', '17.5', '20', '25', '33', '50', '75', '99', '100', '110', '150', '200', '1000', '0.5', '0.1', '33.333', '2.75']
+PS = ['0', '1', '2', '5', '8', '10', '12.5', '15', '17.5', '20', '25', '33', '50', '75', '99', '100', '110', '150', '200', '1000', '0.5', '0.1', '33.333', '2.75', '1500', '2000', '12500', '1000000', '1234.5']
 
 SYMBOL_PREFIX = {'usd': '$', 'eur': '€', 'try': '₺'}
 
@@ -44,9 +44,14 @@ def money_literal(rng, canon, code, sep, neg):
 
 
 def pct_literal(rng, canon, sep, neg):
-    lit = render_literal(canon, sep)
+    lit = render_literal(canon, sep, rng.random() < 0.4)         # a percentage of 1000 or more may be written with grouping
     s = ('-' if neg else '') + lit
     return (s + '%') if rng.random() < 0.6 else ('%' + s)
+
+
+LANGS = lex.languages()
+FORM_RULE = {'of': 'number_of', 'of_r': 'number_of', 'on': 'number_on', 'on_r': 'number_on', 'off': 'number_off', 'off_r': 'number_off',
+             'what_pct': 'find_numbers_percent', 'pct_of_what': 'find_total_from_percent'}
 
 
 def run_shard(ctx):
@@ -62,6 +67,10 @@ def run_shard(ctx):
         sep = rng.choice(SEP_CONFIGS) if rng.random() < 0.5 else SEP_CONFIGS[0]
         cfg = mon.cfg_with(dec=sep[0], thou=sep[1])
         items, meta = [], []
+        # the phrases are configured with the same words in every language; the formulas do not depend on the language
+        lang = 'en' if rng.random() < 0.65 else rng.choice(LANGS)
+        rules = lex.config()['languages'][lang]['rules']
+        forms = ['plus', 'minus'] + [f for f, rn in FORM_RULE.items() if rn in rules]
         for _ in range(150):
             xs = rng.choice(XS)
             ps = rng.choice(PS)
@@ -76,7 +85,7 @@ def run_shard(ctx):
             X = Fraction(xs) * mult * (-1 if xneg else 1)
             p = Fraction(ps) * (-1 if pneg else 1)
             pt = pct_literal(rng, ps, sep, pneg)
-            form = rng.choice(['plus', 'minus', 'of', 'of_r', 'on', 'on_r', 'off', 'off_r', 'what_pct', 'pct_of_what'])
+            form = rng.choice(forms)
             # operands may also come from variables bound on earlier lines
             prelude = ''
             via = 'literal'
@@ -128,7 +137,7 @@ def run_shard(ctx):
             if rng.random() < 0.15:
                 text = text.replace(' is ', ' IS ').replace(' of ', ' Of ').replace(' on ', ' ON ').replace(' off ', ' Off ').replace('what', 'What')
             text = prelude + text
-            items.append(('en', text))
+            items.append((lang, text))
             if via_note and via == 'literal':
                 via = via_note
             if money:
@@ -140,6 +149,7 @@ def run_shard(ctx):
             res.cases += 1
             res.note_rw(r)
             res.count('form:' + form)
+            res.count('lang:' + lang)
             res.count('operand:' + ('money' if code else 'plain'))
             res.distinct.add(sep, text)
             k = mon.kind(slot)
@@ -157,6 +167,6 @@ def run_shard(ctx):
                 if res.cases % 499 == 0:
                     res.sample({'separators': sep, 'text': text, 'expected': float(want), 'observed': mon.describe(slot)})
                 continue
-            res.violation('percent:%s:%s' % (form, 'money' if code else 'plain'), '%r: %s' % (text, problem),
-                          {'config': cfg, 'lang': 'en', 'text': text, 'expected': repr(float(want)), 'observed': mon.describe(slot),
-                           'ops': mon.gh.config_ops(cfg) + [{'op': 'execute', 'lang': 'en', 'text': text}]})
+            res.violation('percent:%s:%s%s' % (form, 'money' if code else 'plain', '' if lang == 'en' else ':' + lang), '%r (%s): %s' % (text, lang, problem),
+                          {'config': cfg, 'lang': lang, 'text': text, 'expected': repr(float(want)), 'observed': mon.describe(slot),
+                           'ops': mon.gh.config_ops(cfg) + [{'op': 'execute', 'lang': lang, 'text': text}]})
